@@ -38,6 +38,9 @@ type Config struct {
 	YieldDensity float64        `json:"yield_density"` // probability that an optional (pre-op) yield is honoured
 	StmtYield    float64        `json:"stmt_yield,omitempty"` // probability that a statement-level preemption point (request handlers, cluster layer) is honoured; 0 = never
 	TimeJumpProb float64        `json:"time_jump_prob,omitempty"`
+	StallProb    float64        `json:"stall_prob,omitempty"` // per scheduling decision: the chosen task is not run but stalled (a slow / descheduled thread) for up to StallLen steps; 0 = never
+	StallLen     int            `json:"stall_len,omitempty"`
+	SpawnStall   float64        `json:"spawn_stall,omitempty"` // probability that a task which has just started a goroutine is stalled right there (the window "stage started ... next statement of the starter")
 	Workers      int            `json:"workers"` // NumCPU()-1 seen by the code
 	MaxSteps     int            `json:"max_steps"`
 	ShuffleMaps  bool           `json:"shuffle_maps"`
@@ -111,6 +114,7 @@ type Sched struct {
 	start   time.Time
 	pctCP   map[int]bool
 	lowPrio int
+	stalled map[*G]int // task -> first step at which it may run again
 }
 
 // TraceAll makes the scheduler keep the complete event trace (debugging aid for
@@ -356,6 +360,19 @@ func Go(site string, f func()) {
 	S.mu.Lock()
 	S.live++
 	S.assignPrio(g)
+	stall := false
+	if S.cfg.SpawnStall > 0 && float64(S.draw()>>11)/(1<<53) < S.cfg.SpawnStall {
+		ln := S.cfg.StallLen
+		if ln <= 0 {
+			ln = 100
+		}
+		if S.stalled == nil {
+			S.stalled = map[*G]int{}
+		}
+		S.stalled[p] = S.steps + 1 + int(S.draw()%uint64(ln))
+		S.counter["fault:task-stall-after-spawn"]++
+		stall = true
+	}
 	S.mu.Unlock()
 	go func() {
 		S.mu.Lock()
@@ -375,6 +392,9 @@ func Go(site string, f func()) {
 		}()
 		f()
 	}()
+	if stall {
+		park("spawned:" + site)
+	}
 }
 
 func (s *Sched) assignPrio(g *G) {
@@ -514,6 +534,22 @@ func Run(cfg Config, root func()) Outcome {
 				en = append(en, g)
 			}
 		}
+		if len(s.stalled) > 0 {
+			// stalled tasks sit out until their step, unless nothing else could run
+			free := en[:0:0]
+			for _, g := range en {
+				if until, ok := s.stalled[g]; ok && until > s.steps {
+					continue
+				}
+				delete(s.stalled, g)
+				free = append(free, g)
+			}
+			if len(free) == 0 && len(s.events) == 0 {
+				clear(s.stalled)
+			} else {
+				en = free
+			}
+		}
 		if len(en) == 0 && len(s.events) == 0 {
 			desc := s.describeBlocked()
 			s.mu.Unlock()
@@ -591,6 +627,21 @@ func Run(cfg Config, root func()) Outcome {
 			}
 		default:
 			idx = int(s.draw() % uint64(n))
+		}
+		if cfg.StallProb > 0 && !noPreempt && idx < len(en) && n > 1 && float64(s.draw()>>11)/(1<<53) < cfg.StallProb {
+			ln := cfg.StallLen
+			if ln <= 0 {
+				ln = 100
+			}
+			g := en[idx]
+			if s.stalled == nil {
+				s.stalled = map[*G]int{}
+			}
+			s.stalled[g] = s.steps + 1 + int(s.draw()%uint64(ln))
+			s.counter["fault:task-stall"]++
+			s.note("stall:" + g.id + "@" + g.site)
+			s.mu.Unlock()
+			continue
 		}
 		s.steps++
 		if idx < len(en) {
